@@ -42,7 +42,7 @@ func caseGen() *rapid.Generator[Case] {
 	key := rapid.Custom(func(t *rapid.T) gen.Item {
 		return gen.S(gen.StringOf([]string{"k", "h1", "h2", "h3", "name", "x y", "é", "\"q\""}, 1, 2).Draw(t, "key"))
 	})
-	opts := gen.ScriptOpts{Item: itemGen(), HdrItem: key, MinOps: 0, MaxOps: max, MaxCells: 3, HdrCells: [2]int{1, 5}, ForceHdr: true, MultiHdr: true, Creators: Creators}
+	opts := gen.ScriptOpts{Item: itemGen(), HdrItem: key, MinOps: 0, MaxOps: max, MaxCells: 3, HdrCells: [2]int{1, 5}, ForceHdr: true, MultiHdr: true, AllowMutate: true, Creators: Creators}
 	withHdr := gen.ScriptGen(opts)
 	opts.ForceHdr = false
 	anyHdr := gen.ScriptGen(opts)
@@ -58,6 +58,7 @@ func caseGen() *rapid.Generator[Case] {
 		c.Target = rapid.SampledFrom(Targets).Draw(t, "target")
 		c.Align = rapid.SliceOfN(rapid.IntRange(0, 3), 0, 5).Draw(t, "align")
 		c.Skip = rapid.SliceOfN(rapid.IntRange(0, 2), 0, 5).Draw(t, "skip")
+		c.Poison = rapid.IntRange(0, 3).Draw(t, "poison") == 0
 		if rapid.IntRange(0, 2).Draw(t, "pre?") == 0 {
 			c.Pre = 1 + rapid.IntRange(0, len(c.Script.Ops)).Draw(t, "pre")
 		}
